@@ -183,7 +183,9 @@ class Elasticity(_SpatialDerivativesLoss):
         stride: Optional[ScalarOrTuple] = None,
         reduction: str = "mean",
     ):
-        super().__init__(mode=mode, sigma=sigma, spacing=spacing, reduction=reduction)
+        super().__init__(
+            mode=mode, sigma=sigma, spacing=spacing, stride=stride, reduction=reduction
+        )
         self.material_name = material_name
         self.first_parameter = first_parameter
         self.second_parameter = second_parameter
